@@ -16,6 +16,7 @@ Rule ==
                        /\ Ev.finite => Within(Ev.got, Ev.ref, Tol(Ev.fam))
     \* a call that consumed another number of words follows another construction: not judged (guard, counted by the check)
     [] Ev.op = "wire" -> /\ Ev.res = "Ok"
+                         /\ Ev.gcls # "nan"                                  \* NaN is in no documented law, whatever the reference does
                          /\ (Ev.wa = Ev.wb) => (IF Ev.finite THEN Within(Ev.got, Ev.ref, WireTol(Ev.fam)) ELSE Ev.same_class)
     [] Ev.op = "tri" -> Ev.res = "Ok" /\ Ev.words = 1 /\ TriOK(Ev.mn, Ev.mx, Ev.md, Ev.fn, Ev.xq, Ev.yq)
     [] Ev.op = "zs" -> ZScoreOK(Ev.m, Ev.s, Ev.z, Ev.r256)
